@@ -361,4 +361,71 @@ theorem rec_sim (hcf : cap ≤ fuel) : ∀ (F len index r : Nat) (stack : List N
     simp [mStep, List.flatMap_append, List.append_assoc]
 end Main
 
+
+/-! ### consequences for `theta_chain_comput_balanced` -/
+
+theorem noOob_of_bevOk (cap : Nat) (evs : List BEv) (h : evs.all (bevOk cap) = true) : noOob evs := by
+  intro e he a b hab
+  have := List.all_eq_true.1 h e he
+  subst hab
+  simp [bevOk] at this
+
+theorem steps_of_bevOk (cap : Nat) : ∀ (evs : List BEv), evs.all (bevOk cap) = true →
+    (evs.flatMap mStep).map (fun s => s.1) = (stepIdx evs).map (fun (i : Nat) => (i : Int)) ∧
+    ∀ s ∈ evs.flatMap mStep, s.2.1 = 3 := by
+  intro evs
+  induction evs with
+  | nil => intro _; simp [stepIdx]
+  | cons e evs ih =>
+    intro h
+    simp only [List.all_cons, Bool.and_eq_true] at h
+    obtain ⟨i1, i2⟩ := ih h.2
+    cases e with
+    | step i sl t k m =>
+      have hk : k = 3 := by have := h.1; simp [bevOk] at this; exact this.1
+      refine ⟨by simp [mStep, stepIdx, i1], ?_⟩
+      intro s hs
+      simp only [List.flatMap_cons, mStep, List.cons_append, List.nil_append, List.mem_cons] at hs
+      rcases hs with rfl | hs
+      · exact hk
+      · exact i2 s hs
+    | split a b c => exact ⟨by simp [mStep, stepIdx, i1], by simpa [mStep] using i2⟩
+    | oob a b => have := h.1; simp [bevOk] at this
+
+/-- **the middle part of `theta_chain_comput_balanced` as translated text** (every n ≥ 4): with the stack size
+    `10·⌊log2(n-3)⌋ + 1` of the C no stack overflow and no other fault, exactly the steps 0 … n-4 in order, every kernel
+    pair of exponent 3 (order 8), the carried pair ends with exponent 4 -/
+theorem balanced_skel_sound (oracle : Nat → Bool) (fuel n : Nat) (hn : 4 ≤ n) (hf : balancedCap n ≤ fuel) :
+    ∃ k, k = theta_chain_comput_rec obs [] oracle fuel (n + 1) ((n - 3 : Nat) : Int) ((0 : Nat) : Int) 0
+        (([n + 1].length : Nat) : Int) (n : Int) 0 0 0 0 (RecSt.init (OSt.entry (balancedCap n) n (n + 1 - 2) [n + 1])) ∧
+    k.fault = none ∧ k.obs.bad = false ∧
+    k.obs.steps.map (fun s => s.1) = (List.range' 0 (n - 3)).map (fun (i : Nat) => (i : Int)) ∧
+    (∀ s ∈ k.obs.steps, s.2.1 = 3) ∧ k.obs.p1 0 = some 4 ∧ k.obs.p2 0 = some 4 := by
+  refine ⟨_, rfl, ?_⟩
+  obtain ⟨b1, b2, b3⟩ := balanced_sound n hn
+  unfold balanced at b1 b2 b3
+  have hPre : Pre (RecSt.init (OSt.entry (balancedCap n) n (n + 1 - 2) [n + 1])) (balancedCap n) n (n + 1 - 2) [n + 1] := by
+    refine ⟨rfl, rfl, by simp [RecSt.init, OSt.entry], by simp [RecSt.init, OSt.entry], rfl, rfl, rfl, ?_, ?_⟩
+    · intro i hi
+      have : i = 0 := by simpa using hi
+      subst this; simp [RecSt.init, OSt.entry]
+    · intro i hi
+      have : i = 0 := by simpa using hi
+      subst this; simp [RecSt.init, OSt.entry]
+  have hcap : 1 ≤ balancedCap n := by unfold balancedCap; omega
+  have P := rec_sim oracle fuel (balancedCap n) n hf n (n - 3) 0 (n + 1 - 2) [n + 1] _ (by omega) (by omega) (by simpa using hcap) hPre
+    (noOob_of_bevOk _ _ b2)
+  obtain ⟨s1, s2⟩ := steps_of_bevOk _ _ b2
+  have hp1 := P.p1 0 (by rw [b1]; simp)
+  have hp2 := P.p2 0 (by rw [b1]; simp)
+  simp only [b1] at hp1 hp2
+  refine ⟨P.kf, P.kb, ?_, ?_, by simpa using hp1, by simpa using hp2⟩
+  · rw [P.sp]
+    simp only [RecSt.init, OSt.entry, List.nil_append]
+    rw [s1, b3]
+  · intro s hs
+    rw [P.sp] at hs
+    simp only [RecSt.init, OSt.entry, List.nil_append] at hs
+    exact s2 s hs
+
 end SqiProofs.SkelRecSim
